@@ -322,7 +322,7 @@ func init() {
 		mu.Lock()
 		t.Check("enqueue_nonblocking", returned == started, "%d of %d request calls released into Write at the same moment against a stalled peer (write queue 2) never returned: Write blocked them", started-returned, started)
 		t.Check("enqueue_nonblocking", full > 0, "a stalled peer with a write queue of 2 never produced a 'write queue full' error")
-		t.Check("timing:enqueue_nonblocking", slowest < t.U(3), "a 'write queue full' error took %v: the caller was blocked", slowest)
+		t.Check("timing:enqueue_nonblocking", slowest < t.U(20), "a 'write queue full' error took %v: the caller was blocked", slowest)
 		stuck := returned != started
 		mu.Unlock()
 		if !stuck {
@@ -336,4 +336,166 @@ func maxInt(a, b int) int {
 		return a
 	}
 	return b
+}
+
+func init() {
+	// C05/C19: bursts of callers released into Do's id draw at the same instant (spin gate just before NewRequest): with an id
+	// generator that is one atomic operation no two calls of a connection share an id and every call gets its own answer
+	register(&scenario{Name: "c05/simultaneous-callers", Props: []string{"C05", "C19"}, Quick: true, Transports: []string{"tcp"}, TimeoutU: 600, Run: func(t *T) {
+		p := newPeer(t, t.Transport, t.Version)
+		defer p.Shutdown()
+		var mu sync.Mutex
+		seen := map[uint32]int{}
+		p.onFrame = func(pc *peerConn, f frameIn) {
+			if stdReply(pc, f) {
+				return
+			}
+			if f.Typ == 1 {
+				mu.Lock()
+				seen[f.Rid]++
+				mu.Unlock()
+				pc.Send(respFrame(f, 0, f.Body))
+			}
+		}
+		cfg := defaultCfg()
+		cfg.ReadQueue, cfg.WriteQueue = 4096, 1024
+		cl, err := t.NewClient(p, cfg)
+		if err != nil {
+			t.Check("setup", false, "dial: %v", err)
+			return
+		}
+		defer cl.Close(nil)
+		runtime.GOMAXPROCS(runtime.NumCPU())
+		rounds, burst := 150, maxInt(2, runtime.NumCPU()-2)
+		var misrouted, failed int32
+		for r := 0; r < rounds; r++ {
+			verifhook.HoldSpin("client.Do:conn-picked")
+			var wg sync.WaitGroup
+			for g := 0; g < burst; g++ {
+				wg.Add(1)
+				go func(g int) {
+					defer wg.Done()
+					tag := int32(r*1000 + g)
+					res, err := doTagged(t, cl, 100, tag, 40)
+					if err != nil {
+						atomic.AddInt32(&failed, 1)
+					} else if tagOfBody(res.Body) != tag {
+						atomic.AddInt32(&misrouted, 1)
+					}
+				}(g)
+			}
+			verifhook.WaitParked("client.Do:conn-picked", burst, t.U(20))
+			verifhook.ReleaseSpin("client.Do:conn-picked")
+			wg.Wait()
+		}
+		mu.Lock()
+		dup := 0
+		for _, n := range seen {
+			if n > 1 {
+				dup++
+			}
+		}
+		mu.Unlock()
+		t.Check("do_returns_own_id", misrouted == 0, "%d of %d calls released into the id draw at the same instant returned another call's response", misrouted, rounds*burst)
+		t.Check("do_returns_own_id", dup == 0, "%d request ids were used by two calls on one connection", dup)
+		t.Check("do_returns", failed == 0, "%d of %d answered calls failed", failed, rounds*burst)
+	}})
+}
+
+func init() {
+	// C13, model-scripted: random subscription tables (commands around the control boundary, shared and repeated handlers) and random
+	// frame streams (pushes, responses nobody waits for, non-control requests, push-typed control commands); the Lean model
+	// `Dispatch` is evaluated on the same script by the driver and its handler log must equal the observed invocation sequence
+	for i := 0; i < 24; i++ {
+		i := i
+		register(&scenario{Name: fmt.Sprintf("c13/model-script-%02d", i), Props: []string{"C13"}, Quick: i < 6, Run: func(t *T) {
+			rg := &rng{s: t.Seed*6151 + uint64(i)*92821 + 5}
+			cmds := []int{1, 2, 3, 4, 5, 6, 50, 51, 200, 255}
+			p := newPeer(t, t.Transport, t.Version)
+			defer p.Shutdown()
+			var mu sync.Mutex
+			var log []string
+			handlers := map[uint32][]func(*protocol.Packet){}
+			var subsS []string
+			nextH := 0
+			for _, c := range cmds {
+				n := rg.intn(4)
+				if n == 0 {
+					continue
+				}
+				var hs []string
+				for k := 0; k < n; k++ {
+					h := nextH
+					if nextH > 0 && rg.intn(4) == 0 {
+						h = rg.intn(nextH) // the same handler subscribed again (to this or another command)
+					} else {
+						nextH++
+					}
+					handlers[uint32(c)] = append(handlers[uint32(c)], func(pk *protocol.Packet) {
+						mu.Lock()
+						log = append(log, fmt.Sprintf("%d.%s", h, pk.Body))
+						mu.Unlock()
+					})
+					hs = append(hs, fmt.Sprint(h))
+				}
+				subsS = append(subsS, fmt.Sprintf("%d:%s", c, strings.Join(hs, ",")))
+			}
+			n := 40 + rg.intn(60)
+			var framesS []string
+			var wire [][]byte
+			for k := 0; k < n; k++ {
+				c := cmds[rg.intn(len(cmds))]
+				body := []byte(fmt.Sprint(k))
+				switch r := rg.intn(10); {
+				case r < 7:
+					framesS = append(framesS, fmt.Sprintf("p%d.%d", c, k))
+					wire = append(wire, specEncode(p.version, pushFrame(c, body)))
+				case r < 9:
+					framesS = append(framesS, fmt.Sprintf("r%d.%d", c, k))
+					wire = append(wire, specEncode(p.version, specFrame{typ: 2, cmd: c, rid: uint32(900000 + k), body: body}))
+				default:
+					if c <= 3 {
+						c = 60 // a control request is a ping or a resume: keep those out of this stream
+					}
+					framesS = append(framesS, fmt.Sprintf("q%d.%d", c, k))
+					wire = append(wire, specEncode(p.version, specFrame{typ: 1, cmd: c, rid: uint32(900000 + k), body: body}))
+				}
+			}
+			p.onFrame = func(pc *peerConn, f frameIn) {
+				if stdReply(pc, f) {
+					return
+				}
+				if f.Typ == 1 && f.Cmd == 100 {
+					if pc.ws != nil {
+						for _, w := range wire {
+							pc.SendRaw(w)
+						}
+					} else {
+						var buf []byte
+						for _, w := range wire {
+							buf = append(buf, w...)
+						}
+						pc.SendRaw(buf)
+					}
+					pc.Send(respFrame(f, 0, f.Body))
+				}
+			}
+			cfg := defaultCfg()
+			cfg.Handlers = handlers
+			cfg.ReadQueue = 1024
+			cl, err := t.NewClient(p, cfg)
+			if err != nil {
+				t.Check("setup", false, "dial: %v", err)
+				return
+			}
+			defer cl.Close(nil)
+			t.Do(cl, "burst", 100, 20)
+			t.Sleep(4)
+			mu.Lock()
+			obs := strings.Join(log, " ")
+			mu.Unlock()
+			t.ev("model.dispatch", "line", fmt.Sprintf("dispatch.run cap=1024 subs=%s frames=%s", strings.Join(subsS, ";"), strings.Join(framesS, ";")), "observed", obs, "ambiguous", false)
+			t.Check("loss_accounting", t.Warns("drop") == 0, "%d packets dropped although the receive queue (1024) is larger than everything sent", t.Warns("drop"))
+		}})
+	}
 }
